@@ -2173,11 +2173,29 @@ def h_slice(ex, st, fr, ins):
     low = ex.val(fr, ins['low']) if ins['low'] is not None else None
     high = ex.val(fr, ins['high']) if ins['high'] is not None else None
     mx = ex.val(fr, ins['max']) if ins['max'] is not None else None
-    low = ex.cint(st, low, 'slice low') if low is not None else 0
+    # symbolic bounds: first the bounds check against the (concrete) capacity as a panic
+    # obligation, then the values that remain are enumerated
+    if isinstance(x, Str):
+        cap0 = len(x.b)
+    elif xt.k == 'ptr':
+        cap0 = ex.U(ex.T(xt.elem)).len if x is not None else 0
+    else:
+        cap0 = ex.cint(st, x.cap) if x.obj is not None else 0
+    its = ins.get('its') or [None, None, None]
+
+    def bounded(v, k, what):
+        if v is None or isinstance(v, int):
+            return v
+        if tid(v) not in st.conc and its[k] is not None:
+            it = ex.U(ex.T(its[k]))
+            c = z3.BitVecVal(cap0, v.size())
+            ex.require(st, z3.ULE(v, c) if it.unsigned else z3.And(v >= 0, v <= c), 'slice bounds out of range')
+        return ex.cint(st, v, what)
+    low = bounded(low, 0, 'slice low') if low is not None else 0
     if high is not None:
-        high = ex.cint(st, high, 'slice high')
+        high = bounded(high, 1, 'slice high')
     if mx is not None:
-        mx = ex.cint(st, mx, 'slice max')
+        mx = bounded(mx, 2, 'slice max')
     if isinstance(x, Str):
         if high is None:
             high = len(x.b)
